@@ -236,13 +236,19 @@ func (ctx *Ctx) schemasFor(fn *ssa.Function) []*Schema {
 	return out
 }
 
-// methodSchema: the method schema governing dynamic calls of method m (declared in an interface of a package with contracts).
-func (ctx *Ctx) methodSchema(m *types.Func) *Schema {
+// methodSchema: the method schema governing dynamic calls of method m through interface type it. Except/Only are matched
+// against "<InterfaceName>.<Method>" (e.g. "Box.EncodeSW", "Descriptor.EncodeSW").
+func (ctx *Ctx) methodSchema(m *types.Func, it types.Type) *Schema {
 	if m == nil || m.Pkg() == nil {
 		return nil
 	}
+	iname := ""
+	if n, ok := it.(*types.Named); ok {
+		iname = n.Obj().Name()
+	}
+	full := iname + "." + m.Name()
 	for _, s := range ctx.cs.Schemas {
-		if s.Method && s.Only == nil && s.Pkg == m.Pkg().Path() && s.Re.MatchString(m.Name()) {
+		if s.Method && s.Pkg == m.Pkg().Path() && s.Re.MatchString(m.Name()) && (s.Except == nil || !s.Except.MatchString(full)) && (s.Only == nil || s.Only.MatchString(full)) {
 			return s
 		}
 	}
